@@ -175,8 +175,12 @@ CheckEv(P, T, sm, s, ln) ==
                                    ELSE (IF ln.err = o[2] \/ (ln.err = <<"noerr">> /\ hasdf)
                                          THEN {} ELSE {"C14.final"}))
 
+(* a collaborator object (event manager, artifact store) that has already served another run: whatever it keeps on
+   itself is state one run leaves behind for the next / shares with an overlapping one *)
+SharedC(T, ln) == IF "shared" \in DOMAIN ln /\ ln.shared THEN (IF T.overlap THEN {"C08.solo"} ELSE {"C07.fresh"}) ELSE {}
+
 CheckSave(P, T, sm, s, ln) ==
-    LateC(s) \cup StartC(s) \cup AfterCompleteC(s) \cup
+    SharedC(T, ln) \cup LateC(s) \cup StartC(s) \cup AfterCompleteC(s) \cup
     (IF ln.v[1] = "recmark" THEN {"C19.marker"} ELSE {}) \cup
     (IF ln.v[1] = "errval" THEN {"C19.failure"} ELSE {})
 
@@ -249,6 +253,8 @@ CheckReturn(P, T, sm, s, ln) ==
                         (* a sub-graph that ran out of iterations fails the run although the semantics has a value
                            (a default, or an enclosing one-of with an alternative) *)
                         \cup (IF kind = "error" /\ v[1] = "rec_noresult" THEN {"C11.exhaust"} ELSE {})
+                        (* a label that has a case was reported as matching none *)
+                        \cup (IF kind = "error" /\ v = <<"dag_error", "SwitchCaseLabelNotFoundError">> THEN {"C09.route"} ELSE {})
               [] sr[1] = "F" ->
                    LET base == {c \in sr[2] : IsBaseTok(c)}
                    IN  IF kind = "value" THEN {"C05.verdict", "C01.value"}
@@ -391,7 +397,7 @@ CheckLine(P, T, S, ln) ==
     CASE ln.e = "BodyStart" -> CheckBodyStart(P, T, sem[ln.r], S[ln.r], ln)
       [] ln.e = "BodyEnd"   -> CheckBodyEnd(P, T, sem[ln.r], S[ln.r], ln)
       [] ln.e = "Default"   -> CheckDefault(P, T, sem[ln.r], S[ln.r], ln)
-      [] ln.e = "Ev"        -> CheckEv(P, T, sem[ln.r], S[ln.r], ln)
+      [] ln.e = "Ev"        -> CheckEv(P, T, sem[ln.r], S[ln.r], ln) \cup SharedC(T, ln)
       [] ln.e = "Save"      -> CheckSave(P, T, sem[ln.r], S[ln.r], ln)
       [] ln.e = "Quiescent" -> CheckQuiescent(P, T, S, ln)
       [] ln.e = "RunReturn" -> CheckReturn(P, T, sem[ln.r], S[ln.r], ln) \cup CheckPid(T, S, ln)
